@@ -18,12 +18,12 @@ BUDGET="${VERIF_BUDGET_S:-900}"
 WORKERS="${VERIF_WORKERS:-16}"
 
 case "$ID" in
-  C05) WORLD=radio; RUNS=3000 ;;
-  C07) WORLD=reg;   RUNS=4000 ;;
-  C10) WORLD=iso;   RUNS=3000 ;;
+  C05) WORLD=radio; RUNS=20000 ;;
+  C07) WORLD=reg;   RUNS=20000 ;;
+  C10) WORLD=iso;   RUNS=8000 ;;
   C14) WORLD=adr;   RUNS=3000 ;;
-  C15) WORLD=plan;  RUNS=3000 ;;
-  C16) WORLD=join;  RUNS=2000 ;;
+  C15) WORLD=plan;  RUNS=8000 ;;
+  C16) WORLD=join;  RUNS=10000 ;;
   smoke) WORLD=smoke; RUNS=300 ;;
   selftest-instrument|selftest-determinism) WORLD=none; RUNS=0 ;;
   *) echo "usage: check.sh <C05|C07|C10|C14|C15|C16|selftest-instrument|selftest-determinism> <quick|thorough|replay <file>>" >&2; exit 2 ;;
